@@ -1,6 +1,7 @@
 package main
 
 import (
+	"os"
 	"fmt"
 	"go/constant"
 	"go/token"
@@ -205,6 +206,7 @@ func (e *Exec) step(fr *frame, st *State, in ssa.Instruction, b *ssa.BasicBlock)
 			}
 			e.boxInfo[bt.S] = boxed{e.val(fr, st, x.X), x.X.Type()}
 			e.linkPure(st, x.Type(), x.X.Type(), bt, fr.vals[x], e.val(fr, st, x.X), e.pos(x.Pos()))
+			e.linkGhost(st, x.X.Type(), e.val(fr, st, x.X))
 		}
 		return true
 	case *ssa.ChangeInterface:
@@ -1004,6 +1006,9 @@ func chanField(v ssa.Value) (string, *types.Package) {
 }
 
 func (e *Exec) chanPred(fr *frame, st *State, ch ssa.Value, prefix string, v Value, entry *State) (Term, bool) {
+	if e.entry != nil {
+		entry = e.entry // old(...) in a channel predicate: the entry of the function under verification
+	}
 	name, pkg := chanField(ch)
 	if name == "" || pkg == nil {
 		return tTrue, false
@@ -1019,10 +1024,28 @@ func (e *Exec) chanPred(fr *frame, st *State, ch ssa.Value, prefix string, v Val
 		if p.Name() == "ridx" || p.Name() == "rvisited" {
 			return tTrue, false
 		}
-		lv, ok := e.namedLocal(fr, st, p.Name(), nil)
+		var lv Value
+		ok := false
+		for f := fr; f != nil && !ok; f = f.parent {
+			lv, ok = e.namedLocal(f, st, p.Name(), nil)
+			if os.Getenv("GOVC_DEBUG") != "" {
+				fmt.Fprintf(os.Stderr, "  lookup %s in frame %s: ok=%v v=%v\n", p.Name(), f.fn.Name(), ok, lv)
+			}
+			if !ok {
+				// a parameter of that frame's function
+				for i, fp := range f.fn.Params {
+					if fp.Name() == p.Name() && i < len(f.args) {
+						lv, ok = f.args[i], true
+					}
+				}
+			}
+		}
 		if !ok {
 			// not applicable in this function
 			return tTrue, false
+		}
+		if os.Getenv("GOVC_DEBUG") != "" {
+			fmt.Fprintf(os.Stderr, "chanPred %s%s: %s = %v\n", prefix, name, p.Name(), lv)
 		}
 		args = append(args, lv)
 	}
@@ -1054,9 +1077,20 @@ func (e *Exec) send(fr *frame, st *State, x *ssa.Send) bool {
 			name, _ := chanField(x.Chan)
 			e.oblige(st, "chaninv", "chaninv.send@"+name, g, e.pos(x.Pos()))
 		}
+		// chansend_<field>: a condition on the sender's state at the moment of the send (not assumed by receivers)
+		if g, found := e.chanPred(fr, st, x.Chan, "chansend_", e.val(fr, st, x.X), fr.entryState); found {
+			name, _ := chanField(x.Chan)
+			e.oblige(st, "chaninv", "chansend@"+name, g, e.pos(x.Pos()))
+		}
 	}
 	e.trusted("D3: channel operations: a receive yields an arbitrary value, a send does not change the verified state, select picks any case; goroutine interleaving is not modelled")
 	e.sendClosedObl(st, ch, e.pos(x.Pos()))
+	if e.spec == 0 && e.quant == 0 {
+		// the only effect of a send that is tracked: the ghost count of values sent on the channel
+		e.ghostSorts["ghost_nsent"] = SInt
+		arr := e.heapComp(st, "G.ghost_nsent", SInt, arraySort(SInt, SInt))
+		e.setHeap(st, "G.ghost_nsent", tStore(arr, ch, tAdd(tSelect(arr, ch, SInt), tInt(1))))
+	}
 	if e.lockChecking() && len(st.locks) > 0 {
 		e.oblige(st, "lock", "lock.blocking", tFalse, e.pos(x.Pos())+": channel send while holding a lock")
 	}
@@ -1284,4 +1318,32 @@ func (e *Exec) assumeChecked(st *State, c Term) {
 		return
 	}
 	e.assume(st, c)
+}
+
+// linkGhost: when a *T of the repository is converted to an interface and its package declares
+// `pred spec_link_T(x *T) bool`, that predicate is assumed at the conversion.  It is the place to say
+// what the interface-level ghost functions of the boxed value mean for this implementation (e.g.
+// "what this message's Source yields now is what its reader yields"); the statement must be backed by
+// the implementation's own verified contracts, and is listed as an assumption.
+func (e *Exec) linkGhost(st *State, concT types.Type, conc Value) {
+	if e.spec > 0 || e.quant > 0 {
+		return
+	}
+	pt, ok := concT.Underlying().(*types.Pointer)
+	if !ok {
+		return
+	}
+	n, ok := pt.Elem().(*types.Named)
+	if !ok || n.Obj().Pkg() == nil {
+		return
+	}
+	pk := e.w.Pkgs[n.Obj().Pkg().Path()]
+	name := "spec_link_" + n.Obj().Name()
+	if pk == nil || pk.SSA == nil || pk.SSA.Func(name) == nil {
+		return
+	}
+	if g, ok := e.evalSpec(st, n.Obj().Pkg().Path(), name, []Value{conc}, st); ok {
+		e.trusted("interface link " + name + ": assumed where a *" + n.Obj().Name() + " becomes an interface value")
+		e.assume(st, g)
+	}
 }
